@@ -83,7 +83,8 @@ func specIsCompressed(flag uint32) bool  { return flag&FLAG_COMPRESS != 0 }
 //@ func (p *Payload) Decompress
 //@   props C10 C12
 //@   ints bv
-//@   modifies p.Flag, p.Body, p.Addr, p.Cap, cmem.AllocRL.Size, cmem.AllocRL.MaxSize, cmem.AllocRL.Count, cmem.AllocRL.MaxCount, ghostFail()
+//@   modifies ghostDecompressDone[p], p.Flag, p.Body, p.Addr, p.Cap, cmem.AllocRL.Size, cmem.AllocRL.MaxSize, cmem.AllocRL.Count, cmem.AllocRL.MaxCount, ghostFail()
+//@   ensures [assumed] ghostDecompressDone[p]      // ghost protocol state (verif_contracts_restart.go): Decompress has been applied to this payload
 //@   ensures !specIsCompressed(old(p.Flag)) ==> err == nil
 //@   ensures [assumed] old(len(p.Body)) < 1<<31 ==> len(p.Body) < 1<<31      // a value is at most BodyMax (< 2 GiB) bytes before compression (enforced on the write path), so a stored value decompresses to less than 2 GiB
 //@   ensures !specIsCompressed(old(p.Flag)) || err != nil ==> p.Flag == old(p.Flag) && sameSlice(p.Body, old(p.Body)) && p.Addr == old(p.Addr) && p.Cap == old(p.Cap)
@@ -223,7 +224,7 @@ func lemmaCompressRoundTripBytes(rec *Record) (err error) {
 //@   props C12 C10
 //@   ints bv
 //@   requires cmem.DBRL.GetData.Size >= 0 && cmem.DBRL.GetData.Size < 1<<60
-//@   modifies cmem.DBRL.GetData.Size, cmem.DBRL.GetData.MaxSize, cmem.DBRL.GetData.Count, cmem.DBRL.GetData.MaxCount, cmem.AllocRL.Size, cmem.AllocRL.MaxSize, cmem.AllocRL.Count, cmem.AllocRL.MaxCount, ghostFail()
+//@   modifies elems(ghostDecompressDone), cmem.DBRL.GetData.Size, cmem.DBRL.GetData.MaxSize, cmem.DBRL.GetData.Count, cmem.DBRL.GetData.MaxCount, cmem.AllocRL.Size, cmem.AllocRL.MaxSize, cmem.AllocRL.Count, cmem.AllocRL.MaxCount, ghostFail()
 //@   ensures res != nil ==> res.Payload != nil && cmem.DBRL.GetData.Count == old(cmem.DBRL.GetData.Count)+1
 //@   ensures res != nil && !specIsCompressed(res.Payload.Flag) ==> cmem.DBRL.GetData.Size == old(cmem.DBRL.GetData.Size)+int64(res.Payload.Cap)
 //@   ensures res == nil ==> cmem.DBRL.GetData.Count == old(cmem.DBRL.GetData.Count) && cmem.DBRL.GetData.Size == old(cmem.DBRL.GetData.Size)
